@@ -115,6 +115,18 @@ def unlock_and_compare(ctx, text, cfg, want_ok, attrs, det, phrase=PASS):
     except Exception as e:  # noqa: BLE001
         ok = False
         det = {**det, "error": f"{type(e).__name__}: {e}"[:200]}
+    if want_ok and ok:
+        # asking again - the same object, and a fresh object parsed from the same text - must give the same answer
+        for how in ("same-object", "fresh-object"):
+            v2 = v if how == "same-object" else VMX.parse(text)
+            try:
+                v2.unlock_with_phrase(phrase)
+            except Exception as e:  # noqa: BLE001
+                ctx.violation({**attrs, "fail": "second-unlock", "how": how}, {**det, "error": f"{type(e).__name__}: {e}"[:200], "phrase": phrase})
+                return False
+            if v2.attr != v.attr:
+                ctx.violation({**attrs, "fail": "second-unlock-differs", "how": how}, {**det, "phrase": phrase})
+                return False
     if want_ok:
         want = dict(before)
         want.update(parse_cfg(cfg))
@@ -190,8 +202,29 @@ def run(ctx):
                 text, cfg, alg = make_bundle([{"match": False, "tamper": "none"}], "none", rng, cipher=cipher, mac=mac, kdf=kdf)
                 ctx.case(key=("triple-wrong", cipher, mac, kdf), nontrivial=True)
                 unlock_and_compare(ctx, text, cfg, False, {"mac": mac, "cipher": cipher, "kdf": kdf, "sub": "wrong-passphrase"}, alg)
+    pad_collisions(ctx, rng)
     byte_sweep(ctx, rng, thorough)
     fixture(ctx)
+
+
+def pad_collisions(ctx, rng):
+    """Configurations of every length modulo the cipher block whose last bytes equal the PKCS#7 pad value (or are other
+    control characters): content bytes that look like padding must survive."""
+    for r in range(16):
+        pad = 16 - r
+        for last in sorted({pad, 0x0A, 0x0D, 0x09, 0x10, 0x01}):
+            for reps in (1, 3):
+                body = 'a = "x"\nscsi0:0.fileName = "d.vmdk"\n#'
+                tail = bytes([last]) * reps
+                fill = (r - len(body.encode()) - len(tail)) % 16
+                cfg = body + "p" * fill + tail.decode("latin-1")
+                assert len(cfg.encode()) % 16 == r, (len(cfg.encode()), r)
+                for mac in ("HMAC-SHA-1", "HMAC-SHA-256"):
+                    data_key = bytes(rng.randrange(256) for _ in range(32))
+                    pt = E.pair_text(PASS, data_key, mac=mac, rounds=1)
+                    text = E.vmx_text({".encoding": "UTF-8"}, E.keysafe([pt]), E.blob(data_key, cfg.encode(), mac, bytes(rng.randrange(256) for _ in range(16))))
+                    ctx.case(key=("pad-collision", r, last, reps, mac), nontrivial=True)
+                    unlock_and_compare(ctx, text, cfg, True, {"sub": "pad-collision", "len_mod_16": r, "last_byte": last, "mac": mac}, {"cfg_len": len(cfg.encode()), "reps": reps})
 
 
 def byte_sweep(ctx, rng, thorough):
